@@ -38,7 +38,10 @@ def viol : Nat → Cmd → List Clause
   | d, .cont n => jumpViol d n
   | _, .ret _ => []
   | _, .exit _ => []
-  | _, .setE _ => []
+  | _, .setOpt _ _ => []
+  | _, .cmdsubst c => viol 0 c
+  | d, .evalC c => viol d c
+  | _, .pipe _ last => viol 0 last
 def violList : Nat → Cmds → List Clause
   | _, .nil => []
   | d, .cons c cs => viol d c ++ violList d cs
